@@ -581,8 +581,15 @@ func (r *runner) inject(op M, res M) {
 	default:
 		vh.Fatal("inject kind %v", op["kind"])
 	}
+	// pad: trailing link-layer padding after the IP packet (a frame longer than the IP total length, e.g. the Ethernet minimum)
+	padded := func(b []byte) []byte {
+		if n := geti(op, "pad", 0); n > 0 {
+			return append(append([]byte{}, b...), wire.Pattern(geti(op, "seed", 0)+77, n)...)
+		}
+		return b
+	}
 	if v == 6 {
-		link.Inject(wire.ProtoIPv6, wire.BuildIPv6(src, dst, proto, l4, 64), rmac)
+		link.Inject(wire.ProtoIPv6, padded(wire.BuildIPv6(src, dst, proto, l4, 64)), rmac)
 		return
 	}
 	cuts := []int{}
@@ -591,7 +598,11 @@ func (r *runner) inject(op M, res M) {
 	}
 	id := uint16(geti(op, "ipid", 1))
 	if len(cuts) == 0 {
-		link.Inject(wire.ProtoIPv4, wire.BuildIPv4(src, dst, proto, l4, wire.IPv4Opts{ID: id}), rmac)
+		// dup: the same frame again, back to back (a retransmission that arrives before the first copy has been processed)
+		frame := padded(wire.BuildIPv4(src, dst, proto, l4, wire.IPv4Opts{ID: id}))
+		for i := 0; i <= geti(op, "dup", 0); i++ {
+			link.Inject(wire.ProtoIPv4, append([]byte{}, frame...), rmac)
+		}
 		return
 	}
 	bounds := append([]int{0}, cuts...)
@@ -611,7 +622,7 @@ func (r *runner) inject(op M, res M) {
 		}
 	}
 	for _, i := range order {
-		link.Inject(wire.ProtoIPv4, frags[i], rmac)
+		link.Inject(wire.ProtoIPv4, padded(frags[i]), rmac)
 	}
 }
 
@@ -703,7 +714,7 @@ func runScenario(si int, sc scenario, tr *vh.Trace) {
 			ev := decodeFrame(f, nic, sc.RawLog)
 			r.mu.Lock()
 			r.nemit++
-			if ev["kind"] == "tcp" && ev["flags"] == "S" {
+			if ev["kind"] == "tcp" && (ev["flags"] == "S" || ev["flags"] == "SA") {
 				// the SYN of an active open: scripts refer to its sequence number (inject ... ackofport)
 				r.synSeq[vh.Int(ev["sport"])<<16|vh.Int(ev["dport"])] = uint32(vh.Int(ev["seqhi"]))<<16 | uint32(vh.Int(ev["seqlo"]))
 			}
